@@ -45,26 +45,37 @@ def _cases(draw):
     interior = draw(st.lists(st.floats(min_value=0.01, max_value=0.99), min_size=0, max_size=2))
     mix = draw(st.permutations(lows + highs + interior))
     return dict(s=s, targets=list(mix), scalar_idx=draw(st.integers(0, len(mix) - 1)),
-                sentinel=draw(st.sampled_from([None, None, None, "low", "high", "both"])))
+                sentinel=draw(st.sampled_from([None, None, None, "low", "high", "both"])),
+                derived=draw(st.sampled_from(["none", "none", "proportion", "replacement", "single_pass", "swap", "sample-of-swap"])),
+                seed=draw(gen.RNG_SEED), ratio=draw(st.sampled_from([0.5, 0.8, 0.34])))
 
 
-def _check_obj(s, targets, scalar_idx, tag="", int_array=False):
+def _check_obj(s, targets, scalar_idx, tag="", int_array=False, derive=None):
     from score_analysis import Scores
 
-    pos, neg, ep, en = s["pos"], s["neg"], s["ep"], s["en"]
     dt = int if s.get("mode") == "int" else float
     rs = np.asarray(targets, dtype=int if int_array else float)
-    for m in METRICS:
-        if not relevant_scores(m, pos, neg):
-            continue
-        closed = achievable_range(m, len(pos), len(neg), ep, en)
-        for sc, ec in CONFIGS:
+    for sc, ec in CONFIGS:
+        pos, neg, ep, en = s["pos"], s["neg"], s["ep"], s["en"]
+        obj = Scores(gen.build_scores(s, "pos") if "container" in s else np.asarray(pos, dtype=dt),
+                     gen.build_scores(s, "neg") if "container" in s else np.asarray(neg, dtype=dt),
+                     nb_easy_pos=ep, nb_easy_neg=en, score_class=sc, equal_class=ec)
+        if derive is not None and pos and neg and ep < 2**31 and en < 2**31:
+            # the subject is an object handed out by the library (bootstrap sample, swap()); the
+            # oracle counts on the multiset of scores that object holds
+            from .c02 import _derive
+
+            obj = _derive(obj, derive)
+            pos, neg = [float(x) for x in obj.pos], [float(x) for x in obj.neg]
+            ep, en = int(obj.nb_easy_pos), int(obj.nb_easy_neg)
+            sc, ec = obj.score_class.value, obj.equal_class.value
+        for m in METRICS:
+            if not relevant_scores(m, pos, neg):
+                continue
+            closed = achievable_range(m, len(pos), len(neg), ep, en)
             lo, hi = brute_extremes(m, pos, neg, ep, en, sc, ec)
             if (lo, hi) != closed:
                 raise HarnessError(f"oracle mismatch {m}: brute {(lo, hi)} closed {closed}")
-            obj = Scores(gen.build_scores(s, "pos") if "container" in s else np.asarray(pos, dtype=dt),
-                         gen.build_scores(s, "neg") if "container" in s else np.asarray(neg, dtype=dt),
-                         nb_easy_pos=ep, nb_easy_neg=en, score_class=sc, equal_class=ec)
             f = getattr(obj, m)
             th = getattr(obj, "threshold_at_" + m)
             lo_f, hi_f = lo.numerator / lo.denominator, hi.numerator / hi.denominator
@@ -135,9 +146,12 @@ def check(case):
     _check_obj(s, case["targets"], case["scalar_idx"])
     # the two extreme targets written as an integer array
     _check_obj(s, [0, 1, -1, 2], case["scalar_idx"] % 4, tag="integer targets: ", int_array=True)
+    if case.get("derived", "none") != "none" and not sent:
+        _check_obj(case["s"], case["targets"], case["scalar_idx"], tag=f"object from {case['derived']}: ", derive=case)
     labels = [f"mode:{s['mode']}"]
     if sent:
         labels.append("float-max-sentinel")
+    labels.append(f"object:{case.get('derived', 'none')}")
     if s["ep"] or s["en"]:
         labels.append("easy")
     if len(s["pos"]) == 1 or len(s["neg"]) == 1:
